@@ -128,6 +128,8 @@ type routeCase struct {
 	Topics     []topicSpec  `json:"topics"`
 	Coords     []coordSpec  `json:"coords"`
 	Steps      []step       `json:"steps"`
+	// BootstrapDown: no broker is reachable when the Transport is first used; the step "bootstrap_up" ends the outage.
+	BootstrapDown bool `json:"bootstrap_down,omitempty"`
 }
 
 // ---------------------------------------------------------------------------
@@ -678,7 +680,7 @@ func (w *world) keysOf(s step) []string {
 
 func isChange(op string) bool {
 	switch op {
-	case "move", "move_coord", "move_controller", "add_broker", "remove_broker":
+	case "move", "move_coord", "move_controller", "add_broker", "remove_broker", "move_port", "bootstrap_up":
 		return true
 	}
 	return false
@@ -695,6 +697,12 @@ func (w *world) change(s step) {
 	case "move_controller":
 		cl.SetController(s.To)
 		w.controller = s.To
+	case "bootstrap_up":
+		for _, id := range cl.BrokerIDs() {
+			cl.Net.Refuse(fmt.Sprintf("b%d.fake:9092", id), nil)
+		}
+	case "move_port":
+		cl.MoveBrokerPort(s.Broker.ID, s.N)
 	case "add_broker":
 		cl.Net.Refuse(fmt.Sprintf("b%d.fake:9092", s.Broker.ID), nil)
 		cl.AddBroker(s.Broker.ID, s.Broker.Rack)
@@ -751,6 +759,8 @@ type result struct {
 	setupErr string
 	// tables: the version table every broker would advertise (brokers keep the table they were created with)
 	tables map[int32]map[int16][2]int16
+	// connAddr: the address every connection was dialled to
+	connAddr map[int]string
 }
 
 func execute(c routeCase) *result {
@@ -818,6 +828,11 @@ func execute(c routeCase) *result {
 	ttl := time.Duration(c.TTLms) * time.Millisecond
 	w.tr = &kafka.Transport{Dial: nw.Dial, MetadataTTL: ttl, ClientID: "c12"}
 	w.client = &kafka.Client{Addr: w.addr, Transport: w.tr}
+	if c.BootstrapDown {
+		for _, id := range cl.BrokerIDs() {
+			cl.Net.Refuse(fmt.Sprintf("b%d.fake:9092", id), syscall.ECONNREFUSED)
+		}
+	}
 	res := &result{ttl: ttl}
 	w.changed()
 	neverAfter := 10*ttl + 2*time.Second
@@ -882,6 +897,10 @@ func execute(c routeCase) *result {
 	cl.Close() // waits for the broker goroutines: the journal is complete and no longer written
 	res.journal = cl.Journal()
 	res.viol = cl.Violations()
+	res.connAddr = map[int]string{}
+	for _, cs := range nw.Conns() {
+		res.connAddr[cs.ID] = cs.Addr
+	}
 	res.tables = map[int32]map[int16][2]int16{}
 	cl.Lock()
 	for _, e := range res.journal {
@@ -1071,6 +1090,23 @@ func run(tb ev.TB, c routeCase) *outcome {
 		o := &res.obs[i]
 		o.L = L
 		if o.Probe == nil {
+			// The cache legitimately answers with an error only while no metadata response has ever been applied.  Refreshes
+			// after a failure are at least 100 ms apart, so by the time three answered ones are in the journal the first is.
+			answered := 0
+			for _, e := range d {
+				if e.Seq <= o.ProbeSeqAfter && e.Outcome == "answered" {
+					answered++
+				}
+			}
+			if answered >= 3 {
+				fail("c12/cache-error-after-refresh", "before step %d (%s) a metadata request served from the transport's cache still failed although %d metadata refreshes had been answered by the brokers%s",
+					i, c.Steps[i].Op, answered, describeWindow(d, snaps, 0, len(snaps)-1))
+				return nil
+			}
+			if answered == 0 && c.BootstrapDown {
+				out.label("cache_error_before_first_refresh")
+				continue
+			}
 			usable = false
 			break
 		}
@@ -1282,6 +1318,28 @@ func run(tb ev.TB, c routeCase) *outcome {
 				fail("c12/leader-routing", "step %d (%s): %s request seq %d for %v arrived at broker %d; the metadata the transport could have used designates: %v%s",
 					si, c.Steps[si].Op, e.ApiName, e.Seq, tps, e.BrokerID, want, describeWindow(d, snaps, o.L, hi))
 				return nil
+			}
+			// the address: the one some metadata response of the window advertised for that broker id
+			if addr := res.connAddr[e.ConnID]; addr != "" {
+				okAddr := false
+				var wantAddr []string
+				for k := o.L; k <= hi; k++ {
+					if b, in := snaps[k].Brokers[e.BrokerID]; in {
+						a := fmt.Sprintf("%s:%d", b.Host, b.Port)
+						if a == addr {
+							okAddr = true
+						}
+						wantAddr = append(wantAddr, fmt.Sprintf("D%d->%s", k, a))
+					}
+				}
+				if !okAddr && len(wantAddr) > 0 {
+					fail("c12/broker-address", "step %d (%s): %s request seq %d for broker %d was sent over a connection to %s; the metadata the transport could have used advertises that broker at: %v",
+						si, c.Steps[si].Op, e.ApiName, e.Seq, e.BrokerID, addr, wantAddr)
+					return nil
+				}
+				if strings.HasSuffix(addr, ":9092") == false {
+					out.label("routed_to_moved_port")
+				}
 			}
 			out.routed++
 			out.brokersHit[e.BrokerID] = true
